@@ -56,10 +56,12 @@ ASSUMPTIONS = [
   'arithmetic (unit hours/minutes/seconds or +NH/+NM/+NS deltas) the case is excluded: the docstring leaves wall-clock '
   'vs elapsed time open (class excluded:dst-subday-arithmetic)',
   'naive start/end take the document time zone, which is UTC when no document is loaded (docmodel.global_docmodel is None)',
-  'the example schedules listed in the SCHEDULE docstring are valid schedules',
+  'the example schedules listed in the SCHEDULE docstring are valid schedules, except "4-hour: :00, 1:20, 2:40", which the same '
+  'docstring contradicts (time of day only "for day-based or longer intervals"); time-of-day slots in hour-based intervals are '
+  'therefore neither generated as valid nor as invalid',
 ]
-BUDGET = {'quick': dict(examples=40000, shards=8, max_seconds=60),
-          'thorough': dict(examples=1200000, shards=16, max_seconds=600)}
+BUDGET = {'quick': dict(examples=24000, shards=8, max_seconds=60),
+          'thorough': dict(examples=800000, shards=16, max_seconds=600)}
 
 US = 1000000
 DAY_US = 86400 * US
@@ -576,7 +578,7 @@ BAD_TOKENS = ['9', 'H1', '/1d', 'Feb:1', '+d', '+1', '1+d', '10:5', '10:5am', ':
               '1/2/3', '9:00:00', '+-1d', '1e3', '9:3pm', 'am9']
 WRONG_TYPE = {   # slot of a type the docstring reserves for another interval unit
   'years': ['/15', 'Mon', ':30'], 'months': ['Jan-15', '1/15', 'Mon', ':30'], 'weeks': ['Jan-15', '1/15', '/15', ':30'],
-  'days': ['Jan-15', '1/15', '/15', 'Mon', ':30'], 'hours': ['Jan-15', '4/15', '/15', 'Mon', '10am', '1:30pm', '15:45'],
+  'days': ['Jan-15', '1/15', '/15', 'Mon', ':30'], 'hours': ['Jan-15', '4/15', '/15', 'Mon'],
   'minutes': ['Jan-15', '/15', 'Mon', '10am', '15:45', ':30'], 'seconds': ['1/15', '/15', 'Fri', '1:30pm', ':45'],
 }
 DUPLICATES = {
@@ -667,6 +669,12 @@ def run_doc(case):
   i = abs(_int(case.get('i'))) % len(DOC_EXAMPLES)
   slug, s = DOC_EXAMPLES[i]
   out.cls('docstring-example')
+  if slug == '4-hour-time-of-day-slots':
+    # the same docstring says time-of-day slots are "available for day-based or longer intervals": the text
+    # contradicts this example, so neither acceptance nor rejection is demanded
+    out.cls('docstring-example:self-contradictory(not-checked)')
+    out['skipped'] = True
+    return out
   out['concrete'] = 'SCHEDULE(%r, start=%r, count=4)' % (s, FIXED_START)
   status, got = call_schedule(s, {'start': FIXED_START, 'count': 4}, 6)
   if status == 'hang':
@@ -728,6 +736,8 @@ def decode_valid(t):
   if c.pick(4) == 0:
     start = list(SPECIAL_STARTS[secs % len(SPECIAL_STARTS)])
   else:
+    if c.pick(4):      # spread the (small-biased) draw over the whole range; keep some near the lower edge
+      secs = (secs * 1000003 + 12345) % SPAN_SECS
     o, sod = divmod(secs, 86400)
     d = _dtm.date.fromordinal(_dtm.date(1901, 1, 1).toordinal() + o)
     start = [d.year, d.month, d.day, sod // 3600, sod // 60 % 60, sod % 60, 0 if c.pick(3) else (secs * 7919) % US]
@@ -743,7 +753,8 @@ def decode_valid(t):
     slots.append({'maj': maj, 'off': off, 'st': sst // 4})
   return {'k': 'valid', 'unit': unit, 'n': n, 'ist': c.n, 'slots': slots, 'start': start,
           'tz': None if tzsel < 2 else ZONES[tzsel - 2], 'skind': 'date' if sk == 0 else 'str' if sk == 1 else 'dt',
-          'snap': snap, 'count': None if count == 26 else 1 + count % 6 if count > 26 else count, 'end': end, 'etz': etz}
+          'snap': snap, 'count': None if count == 26 else 1 + count % 6 if count > 26 else (count * 7 + 3) % 26,
+          'end': end, 'etz': etz}
 
 
 def strategy(tier):
